@@ -1,18 +1,47 @@
 package c14
 
-// Fault injection for the multi-message helpers (File.Readn, File.Written):
-// exactly before the client writes the j-th Tread / Twrite frame of the call,
-// the harness removes or renames the file on the host (Ufs lstat()s the path on
-// every request, so that request is answered with Rerror) or closes the
-// transport. Oracle, only what the statement supports: a helper that reports
-// success (nil error, or io.EOF from Readn) must have transferred exactly
-// min(len(buf), filelen-offset) bytes — per the model at the start of the call
-// — with the right content; an error, with any count, is fine.
+// Fault injection for the File helpers and Clnt.Read / Clnt.Write: exactly
+// before the client writes the j-th Tread / Twrite frame of ONE call, the
+// harness
+//
+//	unlink   removes the file's name on the host,
+//	rename   renames the file on the host (and renames it back when the call
+//	         has returned: the case goes on),
+//	replace  removes the name and makes a directory of that name (write
+//	         helpers only),
+//	cut      closes the transport.
+//
+// Ufs lstat()s the fid's path on every request, so with unlink / rename that
+// request is answered with Rerror; with cut the frame is never sent. In every
+// kind the struck request does NOT reach the file, and all earlier requests of
+// the call were acknowledged before it was issued: how many bytes the call
+// transferred is therefore determined, whatever the helper reports.
+//
+// Oracle (the harness keeps its own descriptor on the host file, opened before
+// the call, and looks at the file through it whatever became of the name):
+//
+//   - write helpers: 0 <= n <= len(data) and the file on the host is exactly
+//     old content + data[:n] at the offset — with or without an error the
+//     count reported is the number of bytes the file received, no more and no
+//     less ("transfer and report exactly the bytes"); with a nil error n is
+//     the full count of the helper;
+//   - read helpers: a call that reports success (nil, or io.EOF) has
+//     transferred exactly min(len(buf), filelen-offset) bytes (one iounit at
+//     most for the single-message helpers) with the right content; a call
+//     that reports an error may report no count (go9p documents "the number
+//     of bytes read, or an Error"), but a count it does report stands for
+//     bytes of the file: buf[:n] equals the file at the offset;
+//   - File.Read / File.Write advance the sequential offset by the count they
+//     reported (seen by the following sequential calls on the same handle).
+//
+// unlink, replace and cut end the case when they fire; after rename the model
+// takes the bytes the file was verified to hold and the case continues.
 
 import (
 	"bytes"
 	"errors"
 	"fmt"
+	"io"
 	"os"
 	"sync/atomic"
 	"time"
@@ -23,14 +52,70 @@ import (
 
 var errFaultFired = errors.New("fault fired: the case ends")
 
+func isReadKind(k string) bool {
+	switch k {
+	case "cread", "read", "readat", "readn":
+		return true
+	}
+	return false
+}
+
+func isWriteKind(k string) bool {
+	switch k {
+	case "cwrite", "write", "writeat", "written":
+		return true
+	}
+	return false
+}
+
+// hostContent reads the whole file through the harness's own descriptor.
+func hostContent(f *os.File) ([]byte, error) {
+	st, err := f.Stat()
+	if err != nil {
+		return nil, err
+	}
+	b := make([]byte, st.Size())
+	n, err := f.ReadAt(b, 0)
+	if err != nil && err != io.EOF {
+		return nil, err
+	}
+	return b[:n], nil
+}
+
 func (r *runner) faultStep(o *Op, h *handle) error {
 	m := r.models[h.file]
 	l := uint64(len(m))
 	cnt := uint64(o.Count)
 	path := r.path(h.file)
 	moved := path + ".moved"
+	reading := isReadKind(o.Kind)
+	if !reading && !isWriteKind(o.Kind) {
+		return fmt.Errorf("harness: fault on op kind %q", o.Kind)
+	}
+	if reading && o.Fault == "replace" {
+		return fmt.Errorf("harness: fault %q on a read is outside this check's grid (Ufs would serve the directory)", o.Fault)
+	}
+	switch o.Fault {
+	case "unlink", "rename", "replace", "cut":
+	default:
+		return fmt.Errorf("harness: unknown fault %q", o.Fault)
+	}
+	off := o.Off
+	if o.Kind == "read" || o.Kind == "write" {
+		off = h.off
+	}
+	if off >= 1<<40 {
+		hx.ExtraAdd("skipped_ops", 1)
+		return nil
+	}
+	host, herr := os.Open(path)
+	if herr != nil {
+		return fmt.Errorf("harness: %v", herr)
+	}
+	defer host.Close()
+
 	wantType := uint8(ref9p.Tread)
-	if o.Kind == "written" {
+	if !reading {
 		wantType = ref9p.Twrite
 	}
 	var seen, fired int32
@@ -48,6 +133,9 @@ func (r *runner) faultStep(o *Op, h *handle) error {
 			_ = os.Remove(path)
 		case "rename":
 			_ = os.Rename(path, moved)
+		case "replace":
+			_ = os.Remove(path)
+			_ = os.Mkdir(path, 0o755)
 		case "cut":
 			r.end.Close()
 		}
@@ -55,25 +143,55 @@ func (r *runner) faultStep(o *Op, h *handle) error {
 	defer r.end.SetWriteHook(nil)
 
 	hx.Eval()
+	defer func() { h.chain++ }()
 	type result struct {
 		n   int
 		err error
 	}
-	var buf, data []byte
+	var buf, data, keep []byte
 	done := make(chan result, 1)
-	if o.Kind == "readn" {
-		buf = make([]byte, o.Count)
-		go func() {
-			n, err := h.f.Readn(buf, o.Off)
-			done <- result{n, err}
-		}()
+	if reading {
+		bl := uint64(o.Count)
+		if o.Kind == "cread" && bl > r.u+8 {
+			bl = r.u + 8 // Clnt.Read returns its own slice; more than an iounit is reported as too long
+		}
+		if bl > 1<<24 {
+			return fmt.Errorf("harness: fault on a read with a %d-byte buffer is outside the grid", bl)
+		}
+		buf = make([]byte, bl)
 	} else {
 		data = prf(o.Seed, int(o.Count))
-		go func() {
-			n, err := h.f.Written(data, o.Off)
-			done <- result{n, err}
-		}()
+		keep = append([]byte(nil), data...)
 	}
+	f, clnt := h.f, r.clnt
+	go func() {
+		var n int
+		var err error
+		switch o.Kind {
+		case "cread":
+			var b []byte
+			b, err = clnt.Read(f.Fid, off, o.Count)
+			n = copy(buf, b)
+			if len(b) > len(buf) {
+				n = len(b) // reported as too long below
+			}
+		case "read":
+			n, err = f.Read(buf)
+		case "readat":
+			n, err = f.ReadAt(buf, int64(off))
+		case "readn":
+			n, err = f.Readn(buf, off)
+		case "cwrite":
+			n, err = clnt.Write(f.Fid, data, off)
+		case "write":
+			n, err = f.Write(data)
+		case "writeat":
+			n, err = f.WriteAt(data, int64(off))
+		case "written":
+			n, err = f.Written(data, off)
+		}
+		done <- result{n, err}
+	}()
 	var res result
 	select {
 	case res = <-done:
@@ -84,74 +202,138 @@ func (r *runner) faultStep(o *Op, h *handle) error {
 	didFire := atomic.LoadInt32(&fired) != 0
 	pieces := atomic.LoadInt32(&seen)
 	n, e := res.n, res.err
+	if didFire && o.Fault == "rename" {
+		// heal: the name is back before anything else happens
+		if err := os.Rename(moved, path); err != nil {
+			return fmt.Errorf("harness: %v", err)
+		}
+	}
 	outcome := "not reached"
 	if didFire {
-		outcome = "reported as an error"
-		if e == nil || isEOF(e) {
+		switch {
+		case e == nil || isEOF(e):
 			outcome = "call still succeeded in full"
+		case n == 0:
+			outcome = "reported as an error, count 0"
+		default:
+			outcome = "reported as an error with the count so far"
 		}
 	}
-	hx.Label(fmt.Sprintf("fault %s %s: %s", o.Kind, o.Fault, outcome))
-	hx.NonTrivial("fault", r.nm, r.dotu, o.Kind, o.Fault, o.FaultAt, lenClass(l, r.u), cntClass(cnt, r.u), outcome)
+	at := "first piece"
+	if o.FaultAt > 1 {
+		at = "later piece"
+	} else if h.chain > 0 {
+		at = "first piece of a later call on the handle"
+	}
+	hx.Label(fmt.Sprintf("fault %s %s at a %s: %s", o.Kind, o.Fault, at, outcome))
+	hx.NonTrivial("fault", r.nm, r.dotu, o.Kind, o.Fault, o.FaultAt, lenClass(l, r.u), offClass(off, l, r.u), cntClass(cnt, r.u), outcome)
+	if didFire {
+		hx.ExtraAdd("faults_fired", 1)
+		if o.FaultAt > 1 || h.chain > 0 {
+			hx.ExtraAdd("faults_fired_after_the_first_piece", 1)
+		}
+	}
 	what := ""
 	if didFire {
-		what = fmt.Sprintf(" (fault: %s exactly before %s #%d of this call; %d such requests were sent)", o.Fault, ref9p.TypeName(wantType), o.FaultAt, pieces)
+		what = fmt.Sprintf(" (fault: %s exactly before %s #%d of this call; %d such requests were sent; the struck request never reached the file)", o.Fault, ref9p.TypeName(wantType), o.FaultAt, pieces)
 	}
-
-	if o.Kind == "readn" {
-		exp := want(m, o.Off, cnt)
-		if n < 0 || n > len(buf) {
-			return r.errf("File.Readn returned n=%d for a %d-byte buffer%s", n, len(buf), what)
-		}
-		if e != nil && !isEOF(e) {
-			if !didFire {
-				return r.errf("File.Readn: n=%d err=%v (expected %d bytes, no fault was injected)", n, e, len(exp))
-			}
-			return errFaultFired // an error, with any count, is fine
-		}
-		// success reported
-		if n != len(exp) {
-			return r.errf("File.Readn with a %d-byte buffer at offset %d of a %d-byte file reported success (n=%d, err=%v) with fewer bytes than the %d that exist up to end of file%s", len(buf), o.Off, l, n, e, len(exp), what)
-		}
-		if !bytes.Equal(buf[:n], exp) {
-			return r.errf("File.Readn at offset %d: data differs at byte %d%s", o.Off, firstDiff(buf[:n], exp), what)
-		}
-		if isEOF(e) && uint64(n) == cnt {
-			return r.errf("File.Readn filled the whole buffer and returned io.EOF%s", what)
-		}
-		if didFire {
-			return errFaultFired
-		}
-		return nil
-	}
-
-	// written
-	if e != nil {
+	name := map[string]string{"cread": "Clnt.Read", "read": "File.Read", "readat": "File.ReadAt", "readn": "File.Readn",
+		"cwrite": "Clnt.Write", "write": "File.Write", "writeat": "File.WriteAt", "written": "File.Written"}[o.Kind]
+	after := func() error {
 		if !didFire {
-			return r.errf("File.Written at offset %d of %d bytes: n=%d err=%v (no fault was injected)", o.Off, cnt, n, e)
+			return nil
+		}
+		if o.Fault == "rename" {
+			hx.Label("fault healed, case continues")
+			return nil
 		}
 		return errFaultFired
 	}
-	if uint64(n) != cnt {
-		return r.errf("File.Written at offset %d of %d bytes reported success (n=%d, err=nil) with fewer bytes than requested%s", o.Off, cnt, n, what)
+
+	if reading {
+		full := cnt
+		if o.Kind != "readn" {
+			full = umin(cnt, r.u)
+		}
+		exp := want(m, off, full)
+		if n < 0 || n > len(buf) {
+			return r.errf("%s returned n=%d for a %d-byte buffer%s", name, n, len(buf), what)
+		}
+		if e != nil && !isEOF(e) {
+			if !didFire {
+				if n == 0 && len(exp) == 0 && off >= 1<<62 && r.osReadErrs(h.file, off) {
+					return nil
+				}
+				return r.errf("%s: n=%d err=%v (expected %d bytes, no fault was injected)", name, n, e, len(exp))
+			}
+			// an error: no count is owed, but a count that is reported stands for bytes of the file
+			if n > len(exp) || !bytes.Equal(buf[:n], exp[:n]) {
+				return r.errf("%s at offset %d of a %d-byte file returned n=%d together with %v, but the %d bytes it reports are not the file's bytes at that offset (first difference at byte %d)%s", name, off, l, n, e, n, firstDiff(buf[:n], exp), what)
+			}
+			if o.Kind == "read" {
+				h.off += uint64(n)
+			}
+			return after()
+		}
+		// success reported
+		if n != len(exp) {
+			return r.errf("%s with a %d-byte buffer at offset %d of a %d-byte file reported success (n=%d, err=%v) with fewer bytes than the %d that exist up to end of file%s", name, len(buf), off, l, n, e, len(exp), what)
+		}
+		if !bytes.Equal(buf[:n], exp) {
+			return r.errf("%s at offset %d: data differs at byte %d%s", name, off, firstDiff(buf[:n], exp), what)
+		}
+		if isEOF(e) && o.Kind == "readn" && uint64(n) == cnt && cnt > 0 {
+			return r.errf("File.Readn filled the whole buffer and returned io.EOF%s", what)
+		}
+		if isEOF(e) && o.Kind != "readn" && n != 0 {
+			return r.errf("%s returned %d bytes together with %v%s", name, n, e, what)
+		}
+		if o.Kind == "read" {
+			h.off += uint64(n)
+		}
+		return after()
 	}
-	newm := mwrite(m, o.Off, data)
+
+	// write helpers
+	full := cnt
+	if o.Kind != "written" {
+		full = umin(cnt, r.u)
+	}
+	if e != nil && !didFire {
+		return r.errf("%s at offset %d of %d bytes: n=%d err=%v (no fault was injected)", name, off, cnt, n, e)
+	}
+	if n < 0 || uint64(n) > cnt {
+		return r.errf("%s of %d bytes reported n=%d (err=%v)%s", name, cnt, n, e, what)
+	}
+	if e == nil && uint64(n) != full {
+		return r.errf("%s at offset %d of %d bytes reported success (n=%d, err=nil), expected n=%d%s", name, off, cnt, n, full, what)
+	}
+	if !bytes.Equal(data, keep) {
+		return r.errf("%s modified the caller's buffer%s", name, what)
+	}
+	disk, herr := hostContent(host)
+	if herr != nil {
+		return fmt.Errorf("harness: %v", herr)
+	}
+	newm := mwrite(append([]byte(nil), m...), off, data[:n])
+	if !bytes.Equal(disk, newm) {
+		// how many bytes of this call's data did the file receive?
+		rec := 0
+		for rec < len(data) && off+uint64(rec) < uint64(len(disk)) && disk[off+uint64(rec)] == data[rec] {
+			rec++
+		}
+		return r.errf("%s of %d bytes at offset %d reported n=%d (err=%v), but the underlying file (read through a descriptor the harness opened before the call) holds %d bytes of this call's data at that offset: file length %d, expected %d for the reported count, first difference at byte %d%s",
+			name, cnt, off, n, e, rec, len(disk), len(newm), firstDiff(disk, newm), what)
+	}
+	r.models[h.file] = newm
+	if uint64(len(newm)) > l {
+		h.wrote = true
+	}
+	if o.Kind == "write" {
+		h.off += uint64(n)
+	}
 	if !didFire {
-		r.models[h.file] = newm
-		if uint64(len(newm)) > l {
-			h.wrote = true
-		}
-		return r.checkDisk(h.file, "after written")
+		return r.checkDisk(h.file, "after "+o.Kind)
 	}
-	if o.Fault == "rename" {
-		// the data went through the open descriptor: the renamed file must hold it
-		b, err := os.ReadFile(moved)
-		if err != nil {
-			return r.errf("renamed underlying file: %v", err)
-		}
-		if !bytes.Equal(b, newm) {
-			return r.errf("File.Written reported success but the (renamed) underlying file differs: disk length %d, expected %d, first difference at byte %d%s", len(b), len(newm), firstDiff(b, newm), what)
-		}
-	}
-	return errFaultFired
+	return after()
 }
